@@ -73,3 +73,11 @@ func (v *VerifDelegate) GetBroadcasts(overhead, limit int) [][]byte {
 
 // QueueBroadcast enqueues b the way the send function of Peer.AddState does.
 func (v *VerifDelegate) QueueBroadcast(b []byte) { v.d.bcast.QueueBroadcast(simpleBroadcast(b)) }
+
+// VerifCrash stops the peer the way a killed process does: memberlist is shut
+// down without announcing a leave, so the other members have to detect the
+// failure by probing. It only exists in builds with the `verif` tag.
+func (p *Peer) VerifCrash() error {
+	close(p.stopc)
+	return p.mlist.Shutdown()
+}
